@@ -93,15 +93,23 @@ def Static.evaluates : Static → Bool
   | .never => false
   | _ => true
 
+/-- values of script-defined types commonly overload `-`, `+`, `*`, `/` (e.g. vectors): applied to an operand
+    about which nothing is known, these operators yield a value about which nothing is known -/
+def Static.isUnknown : Static → Bool
+  | .unknown => true
+  | _ => false
+
 def unopStatic (op : UnOp) (a : Static) : Static :=
   match op with
-  | .minus => if a.arithOk then .ty .number else .never
+  | .minus => if a.isUnknown then .unknown else if a.arithOk then .ty .number else .never
   | .hash => if a.lenOk then .ty .number else .never
   | .not => if a.evaluates then .ty .bool else .never
 
 def binopStatic (op : BinOp) (a b : Static) : Static :=
   match op with
-  | .plus | .minus | .star | .slash | .percent | .caret =>
+  | .plus | .minus | .star | .slash =>
+    if a.arithOk && b.arithOk then (if a.isUnknown || b.isUnknown then .unknown else .ty .number) else .never
+  | .percent | .caret =>
     if a.arithOk && b.arithOk then .ty .number else .never
   | .concat => if a.concatOk && b.concatOk then .ty .string else .never
   | .lt | .le | .gt | .ge => if orderOk a b then .ty .bool else .never
